@@ -2,6 +2,11 @@
 BASE_OFF = "cd /repo && GOFLAGS=-mod=mod GOPROXY=off go test -mod=mod -json -vet=off -count=1 -timeout 25m ./..."
 
 ENGINES = [
+    dict(name="certcommit", path="specs/CertCommit.tla specs/CertCommitMatrix.tla specs/CertCommitTrace.tla harness/areas/certcommit checks/C10.py", serves_properties=["C10"],
+         kind_free_text="TLC holds the certificate coverage matrix (field x {PPHashToSign, FEPHashToSign, Certificate.Hash, wire, stored JSON}) and the Build->Sign->Send->Store "
+                        "pipeline with the codecs as coded; exhaustive over certificate shapes and exporter of shapes x single-field perturbations; every shape driven through the "
+                        "real flows, real AggSender.sendCertificate, real gRPC client (loopback) and real SQLite storage; TLC trace validation of commitment/identity/field "
+                        "equalities, signer recovery and perturbation effects"),
     dict(name="bridgeapi", path="specs/BridgeAPI.tla specs/BridgeAPITrace.tla specs/Merkle.tla harness/areas/bridgeapi harness/names checks/C12.py",
          serves_properties=["C12"],
          kind_free_text="joint L1/L2 history spec with both binary searches and the proof assembly as coded; TLC exhaustive (joint + per-lookup focus configs); "
@@ -164,6 +169,23 @@ CHECKS = {
         text="For every state reached in the reorg and fault explorations TLC checks that the top-down walk over the node table yields, for every "
              "recorded root and covered position, the reference siblings and leaf; on the real store GetProof is called for every (recorded root, "
              "position) after every step and each sibling must carry the name of the reference sibling subtree."),
+    "C10": dict(
+        engine="certcommit", category="other", design_ref="DESIGN.md section 5 C10",
+        text="CertCommitMatrix.tla states for each of the 54 certificate fields where it travels (protobuf, stored JSON) and whether it enters PPHashToSign / FEPHashToSign / "
+             "Certificate.Hash; CertCommit.tla runs Build -> Sign(h) -> Send(w) -> Store(s) with the codecs as coded (in-place Hash() nil-amount side effects, absent amount/metadata, "
+             "shifted leaf-type enum, one-field global index, '<nil>' / omitempty JSON) and TLC checks for every certificate shape (exits 0..2, imported exits 0..2, both claim kinds, "
+             "amounts nil/0/1/2^256-1, empty/non-empty metadata, both leaf types, leading-zero classes of the global index, heights, aggchain params, PP and FEP; 37k states quick, "
+             "572k thorough) h = Commit(w) = Commit(s), Id(w) = Id(s) = Id(built), covered fields arrive, every covered single-field perturbation changes the commitment/identity and "
+             "no uncovered one does, matrix consistent. TLC exports 861 (thorough 5023) shapes with 43k single-field perturbation cases; each shape plus seeded random certificates (up "
+             "to 6 exits / imported exits, random amounts, metadata of 1/33/100+ bytes) is driven through the real PP / FEP BuildCertificate with a recording ECDSA signer, the real "
+             "AggSender.sendCertificate, the real AgglayerGRPCClient (loopback server records the protobuf) and the real AggSenderSQLStorage; the driver re-assembles the certificate from "
+             "the captured protobuf and from the JSON read back, applies the code's own commitment functions and an independent reference, recovers the signer, perturbs every field; "
+             "TLC judges every certificate with CertCommitTrace.tla.",
+        note="level other: TLC holds the matrix, enumerates and judges equalities, nothing temporal; the commitment layouts (reference in the driver) are part of the specification; "
+             "nil amount = amount 0; canonical global indexes, leaf types asset/message; uncovered fields (certificate metadata, custom_chain_data, l1_info_tree_leaf_count, proof data, "
+             "l1_leaf index/rer/mer) recorded, not judged; hook aggsender/certcommit_verif.go (constructor + sendCertificate pass-through); trusted: TLC, keccak/secp256k1, grpc loopback, "
+             "SQLite, the driver's inverse wire conversion",
+        technique="TLA+ model checking (TLC) as enumerator + replay into real code + TLC trace validation"),
     "C11": dict(engine="store", category="model_checking", design_ref="DESIGN.md section 5 C11", technique=_STORE_TECH, note=_STORE_NOTE,
         text="TLC checks the L1 info processor as coded (index read inside the tx, leaf row before AddLeaf, V2 announcement check, VerifyBatches "
              "with zero/unchanged skip, UpsertLeaf walking the last root, root hash as primary key) against: consecutive indices, each root = "
